@@ -17,8 +17,8 @@ def tyCodeName : Ty → String
   | .i64 => "T_I64" | .u64 => "T_U64" | .p => "T_P" | .blk _ => "T_BLK" | .rblk _ => "T_RBLK"
 
 /-- rows of the shortcut table as the model has them: `(opcode, constant)` -/
-def shortcutRowsModel : List (String × Int) :=
+def shortcutRowsModel (muloRow : Bool) : List (String × Int) :=
   ((AOp.all.filterMap fun a => (aopShortcut a).map fun c => [(opName a false, c), (opName a true, c)]).flatten)
-    ++ [("MULO", 1), ("MULOS", 1)]
+    ++ (if muloRow then [("MULO", 1), ("MULOS", 1)] else [])
 
 end MirVerif.Simplify
